@@ -182,6 +182,9 @@ func (g *c05Gen) body(depth int, files []string, allowTags bool) []*c05Tpl {
 		if depth > 0 && len(files) > 0 {
 			f := Pick(g.r, files)
 			t := &c05Tpl{kind: "include", file: f, props: g.props()}
+			if g.r.Intn(4) == 0 {
+				t.props = nil // an include without any attribute
+			}
 			if allowTags && g.r.Intn(3) == 0 {
 				t.kind, t.tag = "tag", c05Tags[f]
 			}
